@@ -73,6 +73,8 @@ func (c *StringScanner) Read() rune {
 	c.position++
 
 	if c.position >= len(c.content) {
+		// The end-of-input slot takes one column, as PeekColumn reports it
+		c.column++
 		return -1
 	}
 
@@ -126,6 +128,11 @@ func (c *StringScanner) PeekLine() int {
 // PeekColumn gets the next character column
 //	Returns: the next character column in the stream
 func (c *StringScanner) PeekColumn() int {
+	// Nothing is left to read, so the next read does not move
+	if (c.position + 1) > len(c.content) {
+		return c.column
+	}
+
 	charBefore := c.charAt(c.position)
 	charAt := c.charAt(c.position + 1)
 	charAfter := c.charAt(c.position + 2)
@@ -143,15 +150,15 @@ func (c *StringScanner) PeekColumn() int {
 // Unread puts the specified character to the top of the stream.
 func (c *StringScanner) Unread() {
 	// Skip if we are at the beginning
-	if c.position < -1 {
+	if c.position < 0 {
 		return
 	}
 
 	// Update the current position
 	c.position--
 
-	// Update line and columns (optimization)
-	if c.column > 0 {
+	// Update line and columns (optimization, valid only if the character counted as a column)
+	if c.column > 0 && c.isColumn(c.charAt(c.position+1)) {
 		c.column--
 		return
 	}
